@@ -237,6 +237,18 @@ func c14Specs(e *Env, r *rand.Rand) []string {
 			add(fmt.Sprintf("%s-%s", c, a))
 		}
 	}
+	for _, low := range []string{"::", "::1", "::2", "::fffe:ffff:ffff", "::ffff", "0:0:0:0:0:fffe::", "::1:0:0"} {
+		for _, v4 := range []string{"0.0.0.0", "192.0.2.10", "255.255.255.255", "10.0.0.1"} {
+			add(low + "-" + v4)
+			add(v4 + "-" + low)
+		}
+	}
+	for _, hi := range []string{"::1:0:0:0", "1::", "2001:db8::", "ffff::", "::ffff:ffff:ffff:ffff"} {
+		for _, v4 := range []string{"0.0.0.0", "192.0.2.10", "255.255.255.255"} {
+			add(hi + "-" + v4)
+			add(v4 + "-" + hi)
+		}
+	}
 	// singles and bad addresses
 	for i := 0; i < e.Pick(100, 1000); i++ {
 		add(randV4(r).String())
